@@ -12,6 +12,24 @@ def attribute(r, stored, open_ids):
         return "F29 bounds inference accepts any declared type for the components of :match_pair on a scrutinee declared /any, e.g. %s" % r["text"].replace("\n", " ")
     if "F30" in open_ids and r["tpl"] == "cons_self" and stored["pred"] == "dst":
         return "F30 bounds inference ignores the head of fn:list:cons, e.g. %s" % r["text"].replace("\n", " ")
+    tpl, pred = r["tpl"], stored["pred"]
+    text = r["text"].replace("\n", " ")
+    if "F55" in open_ids and tpl in ("match_cons_head", "match_cons_tail") and pred == "dst":
+        return "F55 bounds inference gives the head and tail of :match_cons an unconstrained type variable, which conforms to every declared bound, e.g. %s" % text
+    if "F56" in open_ids and tpl in ("cons_head_var", "append_var") and pred == "dst":
+        return "F56 bounds inference types fn:list:cons(S, [1]) / fn:list:append([1], S) by one operand only, e.g. %s" % text
+    if "F57" in open_ids and tpl.endswith("_modein") and pred == "dst":
+        return "F57 a head argument with input mode is assumed to have its declared bound instead of being checked against it, e.g. %s" % text
+    if "F58" in open_ids and tpl == "prefix_number" and pred == "dst" and stored["arg"] and stored["arg"][0] == "cn" and stored["arg"][1][0] == "number":
+        return "F58 :match_prefix(X, /number) types X as the base type /number, e.g. %s" % text
+    if "F59" in open_ids and tpl == "tagged_fact" and pred == "tg":
+        return "F59 a stated fact of a tagged-union bound is accepted with the tag of one variant and the fields of another, e.g. %s" % text
+    if "F60" in open_ids and tpl == "two_col_rows" and pred == "dst":
+        return "F60 the rows of a multi-row declaration are tested for feasibility column by column over different rows, e.g. %s" % text
+    if "F7c" in open_ids and stored["arg"] and stored["arg"][0] == "map":
+        t = r["t1"] if pred == "src" else r["t2"]
+        if t[0] == "tmap" and "cn" in json.dumps([kv[0] for kv in stored["arg"][1]]) and t[1][0] == "pre":
+            return "F7c map bounds are checked contravariantly in the key type: a stated map whose name key lies outside the declared prefix is accepted, e.g. %s" % text
     if "F7b" in open_ids and stored["arg"] and stored["arg"][0] == "struct":
         t = r["t1"] if stored["pred"] == "src" else r["t2"]
         if t[0] == "tstruct" and sorted(kv[0][1][0] for kv in stored["arg"][1]) != sorted(f[0] for f in t[1]):
@@ -44,7 +62,7 @@ def run_cases(ctx, cases_path, tag):
             continue
         seen.add(key)
         cp = os.path.join(ctx.work, "confirm_%d.ndjson" % len(os.listdir(ctx.work)))
-        write_ndjson(cp, [dict(id="confirm", t1=r["t1"], t2=r["t2"], t1b=r.get("t1b", []), t2b=r.get("t2b", []), unit=r.get("unit", []), tpl=r["tpl"], facts=r["facts"], dstfact=[])])
+        write_ndjson(cp, [dict(id="confirm", t1=r["t1"], t2=r["t2"], t1b=r.get("t1b", []), t2b=r.get("t2b", []), unit=r.get("unit", []), tpl=r["tpl"], facts=r["facts"], dstfact=r.get("dstfact", []))])
         rp2 = cp.replace(".ndjson", ".res.ndjson")
         ctx.run_vh(["bounds", "--in", cp, "--out", rp2])
         val2 = ctx.validate(rp2, module="Trace_Bounds", shards=1)
@@ -54,7 +72,7 @@ def run_cases(ctx, cases_path, tag):
         r2 = read_ndjson(rp2)[0]
         bad = [s for s in r2["stored"] if not s["ok"]]
         ctx.violation("%s: accepted by AnalyzeAndCheckBounds(ErrorForBoundsMismatch) but %s | %s" % (m["kind"], bad[0]["err"][:200] if bad else r2.get("err", ""), r["text"].replace("\n", " ")),
-                      dict(property="C11", replay_family="bounds", kind=m["kind"], case=dict(id="replay", t1=r["t1"], t2=r["t2"], t1b=r.get("t1b", []), t2b=r.get("t2b", []), unit=r.get("unit", []), tpl=r["tpl"], facts=r["facts"], dstfact=[]), program_text=r["text"], observed=r2["stored"]))
+                      dict(property="C11", replay_family="bounds", kind=m["kind"], case=dict(id="replay", t1=r["t1"], t2=r["t2"], t1b=r.get("t1b", []), t2b=r.get("t2b", []), unit=r.get("unit", []), tpl=r["tpl"], facts=r["facts"], dstfact=r.get("dstfact", [])), program_text=r["text"], observed=r2["stored"]))
     if ctx.notes.get("unreproduced") and not ctx.violations:
         raise InfraError("bounds mismatch did not reproduce: %s" % ctx.notes["unreproduced"][:1])
     drift = 0
@@ -103,6 +121,13 @@ def check_c11(ctx):
     g4 = ctx.gen_cases("BoundsGen", "BoundsGen_prefix.cfg", runp4, workers=4, idprefix="x-")
     ctx.notes["generators"].update(prefix_programs=g4["cases"])
     res.update(run_cases(ctx, runp4, "prefix"))
+    # a base fact stated for the rule-defined predicate itself
+    allp5 = os.path.join(ctx.work, "dstfact_all.ndjson")
+    g5 = ctx.gen_cases("BoundsGen", "BoundsGen_dstfact.cfg", allp5, workers=8, idprefix="d-")
+    runp5 = os.path.join(ctx.work, "dstfact.ndjson")
+    n5 = evalfam.sample_file(allp5, runp5, 12000 if quick else None, rnd)
+    ctx.notes["generators"].update(dstfact_programs=g5["cases"], dstfact_programs_executed=n5)
+    res.update(run_cases(ctx, runp5, "dstfact"))
     k = 0
     for r in res.values():
         if r["outcome"] == "ok" and any(s["pred"] == "dst" for s in r["stored"]):
